@@ -13,6 +13,18 @@ CHECKS = {
    text="Seeded simulation of the real NfcSession.ReadFile (plain and under secure messaging) against the reference chip under every response-splitting behaviour "
         "(size caps, short answers, Le caps, extended length off, EOF warnings, SFI semantics for P1>=0x80, sibling files) over file sizes banded around every length/offset boundary and maxLe 1..65536; "
         "oracle: exactly the stored bytes, or an error; not-found only if the chip said so; bounded READ BINARY count. Sampling, not proof."),
+ "C03": dict(engine="smduel-resp", cat="fault_enumeration", ref="DESIGN.md 6.3",
+   technique="deterministic simulation with an active on-path adversary: enumerated and seeded forged response deliveries over session histories, reference chip as oracle",
+   text="Real SecureMessaging/NfcSession against the reference chip's own secure messaging over seeded histories; at one exchange an active adversary delivers a forged response. Every single-bit flip and every truncation of short responses is enumerated per suite; "
+        "DO deletion/duplication/reordering/re-encoding, SW mismatch, replays of earlier genuine responses, the next exchange's response, cross-session, re-wrap under another counter, plaintext, bare status, random and empty responses are seeded. "
+        "Oracle: anything accepted must equal exactly what the chip authenticated for that exchange."),
+ "C10": dict(engine="smduel-cmd", cat="exploration", ref="DESIGN.md 6.10",
+   technique="deterministic simulation: seeded command histories unwrapped by an independent chip-side implementation, SSC lockstep invariant after every exchange",
+   text="Seeded histories of 1-2000 commands through the real NfcSession.DoAPDU with a session installed; every wire command is parsed by a strict ISO 7816-4 parser and authenticated/decrypted by the reference chip (CLA 0C, DO87/85 by INS parity, DO97 iff Le and equal to it, MAC under chip SSC+1, Le 00/0000), "
+        "and terminal SSC = chip SSC is checked after every exchange incl. protected error statuses, counter wrap and transport-level rejections."),
+ "C12": dict(engine="smduel-resp (+ hostile engines)", cat="exploration", ref="DESIGN.md 6.12",
+   technique="deterministic simulation with byzantine chip / link / store feeding the parsers through the real seams; crash, step-bound and allocation monitors",
+   text="Boundary-scoped: adversarial bytes reach the parsers only as a chip or stored blob can deliver them (responses through the Transceiver seam, blobs through Verify). Monitors: panic, worker death re-executed alone, deterministic step bounds, bytes allocated per call against a linear budget."),
 }
 
 NOT_APPLICABLE = {
@@ -60,6 +72,8 @@ def main():
             "add_only": True,
         },
         "engines": [
+            {"name": "smduel-resp", "path": "sim/engines/smduel.go", "serves_properties": ["C03", "C12"], "kind_free_text": "deterministic simulation: real secure messaging vs reference chip SM with an active adversary on responses"},
+            {"name": "smduel-cmd", "path": "sim/engines/smduel.go", "serves_properties": ["C10"], "kind_free_text": "deterministic simulation: command histories unwrapped by the reference chip, SSC lockstep invariant"},
             {"name": "readfile", "path": "sim/engines/readfile.go", "serves_properties": ["C13"], "kind_free_text": "deterministic simulation: real ReadFile vs reference chip with response-splitting behaviours"},
         ],
         "checks": checks,
